@@ -104,6 +104,7 @@ class Interp:
         self.module_vars: dict = {}
         self.stack = []
         self.inline_all = inline_all
+        self.swallow = []     # exception types swallowed (caught without re-raise) by enclosing try statements
         self._relevant_cache = prog.__dict__.setdefault("_relevant_cache", {})
 
     # ------------------------------------------------------------------ heap
@@ -551,8 +552,33 @@ class Interp:
             self.exec_block(st.orelse, fr)
             self.exec_block(st.finalbody, fr)
             return
+        swallowed = []
+        for h in handlers:
+            ends_in_raise = bool(h.body) and isinstance(h.body[-1], ast.Raise)
+            returns = any(isinstance(x, ast.Return) for x in ast.walk(ast.Module(body=h.body, type_ignores=[])))
+            if not ends_in_raise and not returns:
+                swallowed += _names(h.type) if h.type is not None else ["BaseException"]
+        self.swallow.append(swallowed)
         try:
             self.exec_block(st.body, fr)
+        except _Raise as r:
+            self.swallow.pop()
+            swallowed = None
+            for h in handlers:
+                if h.type is None or any(nm in r.what for nm in _names(h.type)) or "Exception" in ast.unparse(h.type):
+                    if h.name:
+                        fr.env[h.name] = Sym("exc", r.what)
+                    self.exec_block(h.body, fr)
+                    break
+            else:
+                self.exec_block(st.finalbody, fr)
+                raise
+            self.exec_block(st.finalbody, fr)
+            return
+        finally:
+            if swallowed is not None:
+                self.swallow.pop()
+        try:
             self.exec_block(st.orelse, fr)
         except _Raise as r:
             for h in handlers:
@@ -1058,6 +1084,13 @@ class Interp:
                 for c in g.ifs:
                     self.eval(c, sub)
             res.elem = self.eval(e.elt, sub)
+            if len(e.generators) == 1 and not e.generators[0].ifs and isinstance(e.elt, ast.Name) and \
+                    isinstance(e.generators[0].target, ast.Name) and e.elt.id == e.generators[0].target.id:
+                src = self.eval(e.generators[0].iter, sub)
+                so = self.obj(src)
+                res.meta["identity_conv_of"] = (so.meta.get("identity_conv_of") or self.sym_of(src)) if so is not None else (src if isinstance(src, Sym) and src.tag == "param" else None)
+            elif any(g.ifs for g in e.generators):
+                res.meta["filtered"] = pyfacts.where(fr.func, e)
         finally:
             self.loop_depth -= 1
             self.maybe = saved
